@@ -361,6 +361,9 @@ class ShapesGraph(object):
                 )
             shape_expecting_preds = (SH_and, SH_not, SH_or, SH_xone, SH_property, SH_node, SH_qualifiedValueShape)
             for s in shapes_nodes:
+                if s in gathered_node_shapes or s in gathered_prop_shapes:
+                    # already gathered (named shapes can reference each other)
+                    continue
                 all_po = list(g.predicate_objects(s))
                 if len(all_po) < 1:
                     if recurse_depth < 1:
@@ -369,7 +372,7 @@ class ShapesGraph(object):
                             "https://www.w3.org/TR/shacl/#shapes-graph",
                         )
                     else:
-                        return
+                        continue
                 has_class = any(RDF_type == _p for _p, _o in all_po)
                 has_shape_expecting_p: Dict[rdflib.URIRef, bool] = {}
                 for _p in shape_expecting_preds:
@@ -411,7 +414,8 @@ class ShapesGraph(object):
                             gathered_prop_shapes.add(s)
                         else:
                             gathered_node_shapes.add(s)
-                _found_child_bnodes: List[rdflib.BNode] = []
+                # the shapes referenced by this shape (anonymous or named) are needed to evaluate it
+                _found_child_bnodes: List[Union[rdflib.URIRef, rdflib.BNode]] = []
                 if has_shape_expecting_p:
                     for _p in has_shape_expecting_p.keys():
                         property_entries = list(g.objects(s, _p))
@@ -419,9 +423,9 @@ class ShapesGraph(object):
                             if _p in (SH_or, SH_xone, SH_and):
                                 # These are list-expecting variants of shape-expecting constraints.
                                 for item in g.items(p_e):
-                                    if isinstance(item, rdflib.BNode):
+                                    if isinstance(item, (rdflib.BNode, rdflib.URIRef)):
                                         _found_child_bnodes.append(item)
-                            elif isinstance(p_e, rdflib.BNode):
+                            elif isinstance(p_e, (rdflib.BNode, rdflib.URIRef)):
                                 _found_child_bnodes.append(p_e)
                 if len(_found_child_bnodes) > 0:
                     _gather_shapes(_found_child_bnodes, recurse_depth=recurse_depth + 1)
